@@ -214,7 +214,14 @@ class MyPyAstVisitor:
 
                 # Check if the superclass name is an alias and find the real name
                 if superclass_name in self.aliases:
-                    _, superclass_alias_qname = self._find_alias(superclass_name)
+                    if isinstance(getattr(superclass, "node", None), mp_nodes.TypeInfo):
+                        # The base names a class directly, so only the path it was imported by can differ. The alias
+                        # table is keyed by short names and may hold another class of the package with the same name.
+                        module = self.__declaration_stack[0]
+                        imports = module.qualified_imports if isinstance(module, Module) else []
+                        _, superclass_alias_qname = self._search_alias_in_qualified_imports(imports, superclass_name)
+                    else:
+                        _, superclass_alias_qname = self._find_alias(superclass_name)
                     superclass_qname = superclass_alias_qname if superclass_alias_qname else superclass_qname
 
                 superclasses.append(superclass_qname)
